@@ -31,9 +31,13 @@ MUST_REACH = ["cli_runs", "replace_runs", "find_only_runs", "opt_replicate", "op
 def generate(rng, tier):
     use_mic = rng.random() < 0.35
     fams = ["ortho", "cubic"] if use_mic else ["ortho", "cubic", "tri_pos", "tri_neg", "tri_mixed"]
-    spec = worlds.gen_find_world(rng, max_atoms=14, max_copies=2, min_copies=1, cell_families=fams, hints_prob=0.0, decoys=rng.random() < 0.4,
+    if use_mic and rng.random() < 0.2:
+        fams = ["tri_tiny"]        # almost, but not, orthorhombic: --mic must treat it as the triclinic cell it is
+    tiny = rng.random() < 0.04     # a structure of one or two atoms (a charge file with a single line)
+    spec = worlds.gen_find_world(rng, max_atoms=2, max_copies=2, min_copies=1, cell_families=fams, hints_prob=0.0, decoys=False, families=["single"],
+                                 atols=[0.05, 0.1], round_cell=3 if use_mic and fams != ["tri_tiny"] else None) if tiny else worlds.gen_find_world(rng, max_atoms=14, max_copies=2, min_copies=1, cell_families=fams, hints_prob=0.0, decoys=rng.random() < 0.4,
                                  families=["pair", "collinear", "planar", "asymmetric", "c2", "c3", "td", "chiral"], atols=[0.05, 0.1, 0.2, 0.02],
-                                 width_mult=rng.choice([1.0, 1.3]), round_cell=3 if use_mic else None)
+                                 width_mult=rng.choice([1.0, 1.3]), round_cell=3 if use_mic and fams != ["tri_tiny"] else None)
     replcheck.add_metadata(rng, spec)
     mode = rng.choice(["replace", "replace", "replace", "find"])
     if mode == "replace" and not use_mic and rng.random() < 0.15:
